@@ -10,10 +10,11 @@ Definition cm_lkey (c : cm) : option tlkey :=
   | CPerm => Some k_permission | CStrFmt => Some k_str_format | CReprFmt => Some k_repr_format
   | CViewOpts => Some k_view_options | CCtx => Some k_context | CContextual => Some k_contextual
   | CDetour | CApplyWrappers => Some k_detour | CTimeit => Some k_timing | CDynEval => Some k_dynamic_evaluate
-  | CDynEvalGlobal | CLoadTypes => None
+  | CDynStackL => Some k_dynstack
+  | CDynEvalGlobal | CLoadTypes | CDynGuard | CDynStackG => None
   end.
 Definition cm_gkey (c : cm) : option tlkey :=
-  match c with CDynEvalGlobal => Some g_dynamic_evaluate | CLoadTypes => Some g_ondemand_types | _ => None end.
+  match c with CDynEvalGlobal => Some g_dynamic_evaluate | CLoadTypes => Some g_ondemand_types | CDynStackG => Some g_dynstack | _ => None end.
 
 (* the slots a getter reads *)
 Definition getter_lkey (g : getter) : option tlkey :=
@@ -22,10 +23,11 @@ Definition getter_lkey (g : getter) : option tlkey :=
   | GPerm => Some k_permission | GStrFmt => Some k_str_format | GReprFmt => Some k_repr_format
   | GViewOpts => Some k_view_options | GCtx => Some k_context | GContextual => Some k_contextual
   | GDetour => Some k_detour | GTimeit => Some k_timing | GDynEval => Some k_dynamic_evaluate
-  | GLoadTypes => None
+  | GDynStackL => Some k_dynstack
+  | GLoadTypes | GDynStackG => None
   end.
 Definition getter_gkey (g : getter) : option tlkey :=
-  match g with GDynEval => Some g_dynamic_evaluate | GLoadTypes => Some g_ondemand_types | _ => None end.
+  match g with GDynEval => Some g_dynamic_evaluate | GLoadTypes => Some g_ondemand_types | GDynStackG => Some g_dynstack | _ => None end.
 
 (* --- frame: a write to one slot leaves the others alone --------------------------------------------------- *)
 Lemma get_tl_set_other : forall k k' v s, k <> k' -> st_get k (tl_set k' v s) = st_get k s.
@@ -73,6 +75,11 @@ Proof.
   - rewrite dyn_enter_global in H. apply some_pair_inj in H. destruct H as [H _]. inversion H; subst. split; [reflexivity|]. intros k N. frame_tac.
   - destruct (loadtypes_enter_cases a l g) as [[d [E _]]|[E _]]; rewrite E in H; apply some_pair_inj in H; destruct H as [H _];
       inversion H; subst; split; try reflexivity. intros k N. frame_tac.
+  - unfold dynguard_enter in H. cbn [fst snd] in H.
+    repeat match type of H with context [if ?b then _ else _] => destruct b end; try discriminate;
+      apply some_pair_inj in H; destruct H as [H _]; inversion H; subst; split; reflexivity.
+  - destruct a as [x|d|x]; try discriminate. apply some_pair_inj in H. destruct H as [H _]. inversion H; subst. split; [|reflexivity]. intros k N. frame_tac.
+  - destruct a as [x|d|x]; try discriminate. apply some_pair_inj in H. destruct H as [H _]. inversion H; subst. split; [reflexivity|]. intros k N. frame_tac.
 Qed.
 
 (* a getter reads only its own slots *)
@@ -83,7 +90,7 @@ Lemma observe_frame : forall q l g l1 g1,
 Proof.
   intros q l g l1 g1 HL HG. destruct q; unfold observe; cbn [fst snd getter_lkey getter_gkey] in *;
     try (destruct (nth_error flag_getters i) as [[k d]|]; [|reflexivity]);
-    unfold get_permission, thread_local_kwargs, get_context, get_dynamic_evaluate_fn, current_mappings, tl_get, tl_peek;
+    unfold get_permission, thread_local_kwargs, get_context, get_dynamic_evaluate_fn, current_mappings, stack_read, tl_get, tl_peek;
     repeat match goal with
            | |- context [st_get ?k l1] => rewrite (HL k eq_refl)
            | |- context [st_get ?k g1] => rewrite (HG k eq_refl)
@@ -112,7 +119,7 @@ Proof.
 Qed.
 
 Lemma flag_key_not_fixed : forall i k init k', nth_error flag_scopes i = Some (k, init) ->
-  In k' [k_permission; k_str_format; k_repr_format; k_view_options; k_context; k_contextual; k_detour; k_timing; k_dynamic_evaluate] -> k <> k'.
+  In k' [k_permission; k_str_format; k_repr_format; k_view_options; k_context; k_contextual; k_detour; k_timing; k_dynamic_evaluate; k_dynstack] -> k <> k'.
 Proof.
   intros i k init k' H I.
   assert (exists j, nth_error manager_keys j = Some k' /\ length flag_scopes <= j) as [j [Hj L]].
@@ -137,7 +144,7 @@ Proof.
 Qed.
 
 Definition fixed_keys : list tlkey :=
-  [k_permission; k_str_format; k_repr_format; k_view_options; k_context; k_contextual; k_detour; k_timing; k_dynamic_evaluate].
+  [k_permission; k_str_format; k_repr_format; k_view_options; k_context; k_contextual; k_detour; k_timing; k_dynamic_evaluate; k_dynstack].
 
 Lemma flag_flag_same_index : forall i j k x y,
   nth_error flag_scopes i = Some (k, x) -> nth_error flag_getters j = Some (k, y) -> i = j.
